@@ -89,6 +89,7 @@ func (d *Deadline) SetDeadline(t time.Time) error {
 	if d.final {
 		return io.EOF
 	}
+	verifYield("Deadline.SetDeadline.locked")
 
 	if !d.timer.Stop() {
 		select {
